@@ -198,6 +198,7 @@ UNITS['c10'] = {
 UNITS['c03'] = {
     'template': 'contracts/c03.vrs',
     'mutants': [
+        ('duplicate_check_forgets_the_names', 'names.push(&p.name);', '', ['C03.path.duplicate_variable']),
         ('explicit_operation_id_ignored', 'if xfer.id.is_some() { return clone_opt_string(&xfer.id); }', '', ['C03.opid.xfer_id']),
         ('variable_segments_all_labelled_alike', 'spec::UriSegment::Variable(t) => str_to_lowercase(t.name.as_ref()),', 'spec::UriSegment::Variable(t) => root_label(),', ['C03.opid.uri_segment_label']),
         ('path_param_optional', 'parameter_data: self.prop_param_data(prop, true),', 'parameter_data: self.prop_param_data(prop, false),', ['C03.path']),
@@ -217,6 +218,7 @@ UNITS['c01'] = {
     'template': 'contracts/c01.vrs',
     'rlimit': 30,
     'mutants': [
+        ('duplicate_path_variable_not_rejected', 'if let Some(p) = rel.uri.duplicate_variable() {', 'if let (Some(p), false) = (rel.uri.duplicate_variable(), true) {', ['C03.path.eval_program']),
         ('headers_guard_removed', 'if !matches!(rhs.0.dereference(), Expr::Object(_)) {', 'if false {', ['C01.site.eval_content']),
         ('domain_guard_removed', 'if !value.0.is_content_like() {', 'if false {', ['C01.site.eval_transfer']),
         ('resource_guard_removed', 'if !rel.0.dereference().is_uri_like() {', 'if false {', ['C01.site.eval_program']),
@@ -304,7 +306,7 @@ PROPS = {
         'not_decided': ['the evaluator side of the translation (that the evaluated spec means what the source says)', 'schemas (value_schema and below), annotations, xfer_id; that a response shared by several alternatives carries only the LAST alternative\'s headers / description is what the code does and what the contract states — whether the earlier ones should be merged is a language-design question', 'uniqueness of URI patterns across resources', 'operationId uniqueness'],
     },
     'C03': {
-        'units': ['c03'],
+        'units': ['c03', 'c01'],
         'kani': [dict(_KANI_STATUS, obligation='C03.status.code_domain')],
         'level': 'other',
         'obligation_prefixes': ['C03.', 'SCAFFOLD.C03.'],
@@ -322,7 +324,7 @@ PROPS = {
         'level_text': 'Deductive proof (Verus/Z3, Kani for the code domain) of three emitter invariants, for every evaluated program: response keys are 100-599 or 1XX-5XX; '
                       'a path key is the rendering of its URI path with variables as {name} and the in:path parameters of the same path item are exactly those variables, in order, each required; '
                       'a schema use is a $ref only if all_components emits a component under exactly the referenced name. '
-                      'derived operationIds: the real method_label / uri_segment_label / xfer_id are under contract and distinct operations are shown NOT to get distinct identifiers (machine-checked collision, known finding, DESIGN 12.33); '
+                      'a resource path never names a variable twice (real Uri::duplicate_variable in unit c03, real eval_program in unit c01 — found failing on the pinned tree, repaired by a fix commit), so each {variable} has exactly one path parameter; derived operationIds: the real method_label / uri_segment_label / xfer_id are under contract and distinct operations are shown NOT to get distinct identifiers (machine-checked collision, known finding, DESIGN 12.33); '
                       'YAML round trip, and that every Ref in the evaluated program is in the reference table are not decided: level other.',
         'level_note': 'Trusted: IndexMap shim (ordered association list), format! strings rendered as stated, atom::Ident::{is_reference,untagged} and atom::Text::as_ref as text functions, '
                       'value_schema returns an Item (scan A2), all_paths/relation_path_item use the same rel.uri for key and parameters (scan A3), HttpStatus::Code only built in try_from (scan A4). '
